@@ -181,6 +181,7 @@ Definition site_class (s : gsite) : option gclass :=
 
 (* the tracking found in the source is the one the model relies on; a class awaited
    through a WaitGroup must be registered with one *)
+Definition done_ok (d : gdone) : bool := match d with DoneSome => false | _ => true end.
 (* classes whose registration the model takes to be guarded by lock + closing flag (GuardLockFlag) *)
 Definition class_guarded (g : gclass) : bool :=
   match g with GProvWorker | GRtLoop | GRtRequest => true | _ => false end.
@@ -190,7 +191,9 @@ Definition track_ok (s : gsite) (r : row) : bool :=
   | AwWaitGroup => negb (String.eqb (gs_track s) "untracked")
   | _ => true
   end &&
-  (if class_guarded (r_class r) then negb (String.eqb (gs_guard s) "") else true).
+  (if class_guarded (r_class r) then negb (String.eqb (gs_guard s) "") else true) &&
+  (* a goroutine registered by an explicit Add reaches the Done calls it owes on every path *)
+  done_ok (gs_done s).
 Definition site_covered (s : gsite) : bool :=
   match site_row s with Some r => track_ok s r | None => false end.
 
@@ -213,6 +216,15 @@ Definition awaited (c : comp) (own_ks : bool) : list gclass :=
   | CResettable => [GRksWorker]
   end.
 
+(* Done on every path: no start site of a class Close of the component has to await (directly, or through a
+   parent that joins it with a local WaitGroup) may lose its Done on some path — the regenerated inventory's
+   gs_done, computed by go2coq from the body the goroutine runs. *)
+Definition comp_done_all (c : comp) : bool :=
+  forallb (fun s => match site_class s with
+                    | Some g => if existsb (gclass_eqb g) (awaited c true) then done_ok (gs_done s) else true
+                    | None => true
+                    end) sites.
+
 (* ---- the Close protocol as a machine ------------------------------------------------------------------ *)
 Inductive once_kind :=
 | OnceSync         (* sync.Once around the body: later callers block until the first has finished *)
@@ -225,24 +237,30 @@ Inductive guard_kind :=
 Inductive wait_kind :=
 | WaitWG           (* sync.WaitGroup.Wait: a waiter that slept panics if the counter is non-zero again when it resumes *)
 | WaitChan.        (* receive from a channel that is closed when the last goroutine ends *)
-Record desc := { d_once : once_kind; d_guard : guard_kind; d_wait : wait_kind }.
+Record desc := { d_once : once_kind; d_guard : guard_kind; d_wait : wait_kind;
+                 (* every goroutine registered with the WaitGroup reaches its Done on every path (the regenerated
+                    inventory's gs_done); when false a registered goroutine may end without decrementing *)
+                 d_done_all : bool }.
 
 Definition desc_of (c : comp) : desc :=
   match c with
-  | CDht | CDual | CFullRT => {| d_once := OnceNone; d_guard := GuardCtor; d_wait := WaitWG |}
-  | CProvMgr => {| d_once := OnceNone; d_guard := GuardCtor; d_wait := WaitChan |}
-  | CValueStore => {| d_once := OnceNone; d_guard := GuardNone; d_wait := WaitChan |}     (* StartGC may be called at any time *)
-  | CRtRefresh => {| d_once := OnceNone; d_guard := GuardLockFlag; d_wait := WaitWG |}    (* Start / Refresh register under refcountLk while !closed *)
-  | CProvider => {| d_once := OnceSync; d_guard := GuardLockFlag; d_wait := WaitWG |}
-  | CBuffered => {| d_once := OnceSync; d_guard := GuardCtor; d_wait := WaitChan |}
-  | CProvDual => {| d_once := OnceNone; d_guard := GuardCtor; d_wait := WaitChan |}       (* closes both providers (each OnceSync), then the keystore *)
-  | CKeystore | CResettable => {| d_once := OnceSync; d_guard := GuardCtor; d_wait := WaitChan |}   (* closeOnce.Do *)
+  | CDht | CDual | CFullRT => {| d_once := OnceNone; d_guard := GuardCtor; d_wait := WaitWG; d_done_all := comp_done_all c |}
+  | CProvMgr => {| d_once := OnceNone; d_guard := GuardCtor; d_wait := WaitChan; d_done_all := comp_done_all c |}
+  | CValueStore => {| d_once := OnceNone; d_guard := GuardNone; d_wait := WaitChan; d_done_all := comp_done_all c |}     (* StartGC may be called at any time *)
+  | CRtRefresh => {| d_once := OnceNone; d_guard := GuardLockFlag; d_wait := WaitWG; d_done_all := comp_done_all c |}    (* Start / Refresh register under refcountLk while !closed *)
+  | CProvider => {| d_once := OnceSync; d_guard := GuardLockFlag; d_wait := WaitWG; d_done_all := comp_done_all c |}
+  | CBuffered => {| d_once := OnceSync; d_guard := GuardCtor; d_wait := WaitChan; d_done_all := comp_done_all c |}
+  | CProvDual => {| d_once := OnceNone; d_guard := GuardCtor; d_wait := WaitChan; d_done_all := comp_done_all c |}       (* closes both providers (each OnceSync), then the keystore *)
+  | CKeystore | CResettable => {| d_once := OnceSync; d_guard := GuardCtor; d_wait := WaitChan; d_done_all := comp_done_all c |}   (* closeOnce.Do *)
   end.
 
 (* the protocols the keystores and the refresh manager used before they were repaired (the witnesses of
    what was wrong with them are kept in Proofs/LifecycleProofs.v) *)
-Definition desc_keystore_select : desc := {| d_once := OnceChanSelect; d_guard := GuardCtor; d_wait := WaitChan |}.
-Definition desc_rtrefresh_unguarded : desc := {| d_once := OnceNone; d_guard := GuardNone; d_wait := WaitWG |}.
+Definition desc_keystore_select : desc := {| d_once := OnceChanSelect; d_guard := GuardCtor; d_wait := WaitChan; d_done_all := true |}.
+(* the sweeping provider's protocol if one of its registered goroutines could end without Done (what the
+   inventory's gs_done = DoneSome would mean) *)
+Definition desc_provider_lost_done : desc := {| d_once := OnceSync; d_guard := GuardLockFlag; d_wait := WaitWG; d_done_all := false |}.
+Definition desc_rtrefresh_unguarded : desc := {| d_once := OnceNone; d_guard := GuardNone; d_wait := WaitWG; d_done_all := true |}.
 
 (* state of one thread with respect to Close *)
 Inductive cst :=
@@ -262,12 +280,13 @@ Record st := {
   ctor_done : bool;     (* the constructor has returned the instance *)
   pre : nat;            (* live registered goroutines that were registered before the flag was set *)
   post : nat;           (* live registered goroutines that were registered after the flag was set *)
+  leaked : nat;         (* of the [pre] registrations: goroutines that have ended WITHOUT calling Done (the count stays) *)
   closers : nat -> cst;
   once_taken : bool; once_done : bool;
   panicked : bool }.
 
 Definition init : st :=
-  {| flag := false; ctor_done := false; pre := 0; post := 0; closers := fun _ => CIdle;
+  {| flag := false; ctor_done := false; pre := 0; post := 0; leaked := 0; closers := fun _ => CIdle;
      once_taken := false; once_done := false; panicked := false |}.
 
 Definition upd (f : nat -> cst) (t : nat) (v : cst) : nat -> cst := fun x => if Nat.eqb x t then v else f x.
@@ -276,6 +295,7 @@ Inductive ev :=
 | ECtorDone
 | ESpawn            (* some path of the instance tries to register and start a goroutine *)
 | EExitPre | EExitPost
+| EExitLeak         (* a goroutine registered before the flag ends without calling Done *)
 | ECloseEnter (t : nat)
 | ECloseSet (t : nat)
 | EWaitFast (t : nat)   (* nothing registered: the wait returns without sleeping *)
@@ -285,18 +305,18 @@ Inductive ev :=
 | ECloseRet (t : nat).
 
 Definition set_closer (s : st) (t : nat) (v : cst) : st :=
-  {| flag := flag s; ctor_done := ctor_done s; pre := pre s; post := post s; closers := upd (closers s) t v;
+  {| flag := flag s; ctor_done := ctor_done s; pre := pre s; post := post s; leaked := leaked s; closers := upd (closers s) t v;
      once_taken := once_taken s; once_done := once_done s; panicked := panicked s |}.
 
 Definition step (d : desc) (s : st) (e : ev) : option st :=
   match e with
   | ECtorDone =>
-      Some {| flag := flag s; ctor_done := true; pre := pre s; post := post s; closers := closers s;
+      Some {| flag := flag s; ctor_done := true; pre := pre s; post := post s; leaked := leaked s; closers := closers s;
               once_taken := once_taken s; once_done := once_done s; panicked := panicked s |}
   | ESpawn =>
-      let add_pre := {| flag := flag s; ctor_done := ctor_done s; pre := S (pre s); post := post s; closers := closers s;
+      let add_pre := {| flag := flag s; ctor_done := ctor_done s; pre := S (pre s); post := post s; leaked := leaked s; closers := closers s;
                         once_taken := once_taken s; once_done := once_done s; panicked := panicked s |} in
-      let add_post := {| flag := flag s; ctor_done := ctor_done s; pre := pre s; post := S (post s); closers := closers s;
+      let add_post := {| flag := flag s; ctor_done := ctor_done s; pre := pre s; post := S (post s); leaked := leaked s; closers := closers s;
                          once_taken := once_taken s; once_done := once_done s; panicked := panicked s |} in
       match d_guard d with
       | GuardLockFlag => if flag s then Some s (* `if s.closed() { return }`: nothing is registered *) else Some add_pre
@@ -305,15 +325,22 @@ Definition step (d : desc) (s : st) (e : ev) : option st :=
                      else if flag s then Some add_post else Some add_pre
       end
   | EExitPre =>
+      (* only a goroutine that is still alive can end and call Done *)
       match pre s with
       | O => None
-      | S n => Some {| flag := flag s; ctor_done := ctor_done s; pre := n; post := post s; closers := closers s;
+      | S n => if Nat.leb (pre s) (leaked s) then None else
+               Some {| flag := flag s; ctor_done := ctor_done s; pre := n; post := post s; leaked := leaked s; closers := closers s;
                        once_taken := once_taken s; once_done := once_done s; panicked := panicked s |}
       end
+  | EExitLeak =>
+      if negb (d_done_all d) && Nat.ltb (leaked s) (pre s)
+      then Some {| flag := flag s; ctor_done := ctor_done s; pre := pre s; post := post s; leaked := S (leaked s); closers := closers s;
+                   once_taken := once_taken s; once_done := once_done s; panicked := panicked s |}
+      else None
   | EExitPost =>
       match post s with
       | O => None
-      | S n => Some {| flag := flag s; ctor_done := ctor_done s; pre := pre s; post := n; closers := closers s;
+      | S n => Some {| flag := flag s; ctor_done := ctor_done s; pre := pre s; post := n; leaked := leaked s; closers := closers s;
                        once_taken := once_taken s; once_done := once_done s; panicked := panicked s |}
       end
   | ECloseEnter t =>
@@ -324,7 +351,7 @@ Definition step (d : desc) (s : st) (e : ev) : option st :=
           match d_once d with
           | OnceSync =>
               if once_taken s then Some (set_closer s t COnceBlocked)
-              else Some {| flag := flag s; ctor_done := ctor_done s; pre := pre s; post := post s; closers := upd (closers s) t CEntered;
+              else Some {| flag := flag s; ctor_done := ctor_done s; pre := pre s; post := post s; leaked := leaked s; closers := upd (closers s) t CEntered;
                            once_taken := true; once_done := once_done s; panicked := panicked s |}
           | OnceChanSelect => if flag s then Some (set_closer s t CEarly) else Some (set_closer s t CEntered)
           | OnceNone => Some (set_closer s t CEntered)
@@ -336,7 +363,7 @@ Definition step (d : desc) (s : st) (e : ev) : option st :=
       | CEntered =>
           (* close(s.close) on a channel that is already closed panics *)
           let boom := match d_once d with OnceChanSelect => flag s | _ => false end in
-          Some {| flag := true; ctor_done := ctor_done s; pre := pre s; post := post s;
+          Some {| flag := true; ctor_done := ctor_done s; pre := pre s; post := post s; leaked := leaked s;
                   closers := upd (closers s) t (if boom then CPanicked else CWaiting);
                   once_taken := once_taken s; once_done := once_done s; panicked := panicked s || boom |}
       | _ => None
@@ -361,7 +388,7 @@ Definition step (d : desc) (s : st) (e : ev) : option st :=
       | CWoken =>
           (* WaitGroup.Wait: "WaitGroup is reused before previous Wait has returned" *)
           let boom := match d_wait d with WaitWG => negb (Nat.eqb (pre s + post s) 0) | WaitChan => false end in
-          Some {| flag := flag s; ctor_done := ctor_done s; pre := pre s; post := post s;
+          Some {| flag := flag s; ctor_done := ctor_done s; pre := pre s; post := post s; leaked := leaked s;
                   closers := upd (closers s) t (if boom then CPanicked else CDone);
                   once_taken := once_taken s; once_done := once_done s; panicked := panicked s || boom |}
       | _ => None
@@ -369,7 +396,7 @@ Definition step (d : desc) (s : st) (e : ev) : option st :=
   | ECloseRet t =>
       match closers s t with
       | CDone =>
-          Some {| flag := flag s; ctor_done := ctor_done s; pre := pre s; post := post s; closers := upd (closers s) t CReturned;
+          Some {| flag := flag s; ctor_done := ctor_done s; pre := pre s; post := post s; leaked := leaked s; closers := upd (closers s) t CReturned;
                   once_taken := once_taken s; once_done := match d_once d with OnceSync => true | _ => once_done s end;
                   panicked := panicked s |}
       | COnceBlocked => if once_done s then Some (set_closer s t CReturned) else None
